@@ -420,6 +420,20 @@ def case_notation(case, col=None):
     qm = getattr(q, "magnitude", q)
     if not close(qm.nominal_value, m.magnitude.nominal_value) or not close(qm.std_dev, m.magnitude.std_dev):
         raise Violation("notation_differs_from_measurement", f"{text!r}")
+    # two measurements read from text are two measurements: statistically independent, exactly like two constructor calls, also when the text
+    # is the same (difference: sqrt(2) sigma, never 0), whether read by two calls or as two terms of one expression
+    import math
+
+    q2 = ureg.parse_expression(text)
+    d = getattr(q2 - q, "magnitude", q2 - q)
+    if std and (not close(d.std_dev, math.sqrt(2) * float(std)) or abs(d.nominal_value) > 1e-9 * abs(float(nominal))):
+        raise Violation("parsed_measurements_not_independent:two_calls", f"{text!r} parsed twice: the difference is {d!r}, two independent measurements differ by 0 +/- {math.sqrt(2) * float(std)!r}")
+    if text.lstrip("-").startswith("("):
+        s_, tot = attempt(ureg.parse_expression, f"{text} + {text}")
+        if s_ == "ok":
+            t = getattr(tot, "magnitude", tot)
+            if std and hasattr(t, "std_dev") and close(t.nominal_value, 2 * float(nominal)) and not close(t.std_dev, math.sqrt(2) * float(std)):
+                raise Violation("parsed_measurements_not_independent:one_expression", f"'{text} + {text}' -> {t!r}; two independent terms give +/- {math.sqrt(2) * float(std)!r}")
 
 
 def run_notation(task, tier, seed, col):
